@@ -1593,7 +1593,7 @@ def check_case(rep: C.Report, rng, case: Case, tier, acc: Counter, idx: int, all
                         what="add_workflow rejects the workflow but the inlined expression type-checks",
                         inlined_expression=text, error=list(base.error),
                         sources_left_to_inference=open_sources, inlined_graph=listing(io)),
-                        has_input=True, signature=SIG_INFER if open_sources else None)
+                        has_input=True, signature=None)     # the recorded finding is the other direction
             continue
         # --- (a) the property, structurally
         sp = spec_obs(lang, wf, pt)
@@ -1619,6 +1619,10 @@ def check_case(rep: C.Report, rng, case: Case, tier, acc: Counter, idx: int, all
             if not ok:
                 acc["inline_violations"] += 1
                 open_sources = [q for q, t in st0.items() if t == "_" or t.startswith("τ")]
+                # the recorded finding: the workflow type-checks (tools inferred producer-first, a
+                # source resolved by the first tool is concrete for the next) while the inlined
+                # expression keeps that source a variable (aliased by unify(var, var), or bound to a
+                # compound type at once) and raises, or types differently
                 sig = SIG_INFER if open_sources else None
                 rep.violation(f"inline_{idx}", case.payload(kind="oracle",
                     what="the workflow graph and the graph of the inlined expression disagree "
@@ -1649,6 +1653,27 @@ def unmentioned_inputs(wf) -> list:
     """(tool, position) of declared inputs the tool's expression does not mention"""
     return [(a["out"], k) for a in wf["apps"] for k in range(len(a["ins"]))
             if k not in set(slots_of(a["term"]))]
+
+
+def open_source_meets_compound(lang: Lang, wf, open_sources) -> bool:
+    """does a source that is left to inference feed a parameter of compound type (F(..), a
+    function type, or the F-side of wrap/unwrap)?  Only then can the order in which its uses
+    are inferred matter (the recorded finding: a variable unified with a compound type is
+    bound at once, parameters included); uses at base types of one chain are C05's theorem."""
+    op_of = {o["name"]: o for o in lang.ops}
+    hit = []
+
+    def walk(a, t):
+        if t[0] != "ap":
+            return
+        o = op_of[t[1]]
+        for p, x in zip(o["params"], t[2]):
+            if x[0] == "in" and a["ins"][x[1]] in open_sources and isinstance(p, tuple):
+                hit.append((a["out"], t[1]))
+            walk(a, x)
+    for a in wf["apps"]:
+        walk(a, a["term"])
+    return bool(hit)
 
 
 def all_reached(wf) -> bool:
